@@ -1987,7 +1987,7 @@ fn run_request_time(case: &Value) -> Obs {
 }
 
 fn run(case: &Value) -> Obs {
-    w8_watchdog::arm(30);
+    w8_watchdog::arm(10);
     let fam = s(case, "family").unwrap_or_default();
     let o = match fam.as_str() {
         "rule" => run_rule(case),
